@@ -16,7 +16,7 @@ META = {
                    "so far must answer its recorded behavioural probes (types, overridden keyword, ids, formats) exactly as when it was "
                    "created; extend() without changes is probe-equivalent to its parent; class-wide format registration affects only "
                    "FormatChecker objects created afterwards",
-    "bounds": {"history length": "<= 2 (quick) / 3 (thorough)", "probe instance": "symbolic int or short string", "base drafts": "3, 4, 6, 7"},
+    "bounds": {"history length": "<= 2 derivation steps", "probe instance": "symbolic int or short string", "base drafts": "3, 4, 6, 7"},
     "outside": ["histories longer than the bound", "probes beyond the listed ones"],
     "stubs": ["message formatting"],
     "assumptions": ["global registries (validators, meta_schemas, FormatChecker.checkers) are snapshotted and restored around each path"],
@@ -197,6 +197,8 @@ def conditions(tier, seed, active):
             out.append(dict(id="history/d%d/n2/first%d" % (d, first), module=__name__, factory="first_op",
                             params=dict(d=d, n=2, first=first), timeout=900, tags=["n2"], witness=[]))
             if not quick:
-                out.append(dict(id="history/d%d/n3/first%d" % (d, first), module=__name__, factory="first_op",
-                                params=dict(d=d, n=3, first=first), timeout=3000, tags=["n3"], witness=[]))
+                # thorough: two-step histories for all four drafts and for string probes as well (three-step histories did not finish
+                # within 50 minutes as one tier and are not part of it)
+                out.append(dict(id="history/d%d/n2/first%d/str" % (d, first), module=__name__, factory="first_op",
+                                params=dict(d=d, n=2, first=first, kind="str"), timeout=3000, tags=["n2"], witness=[]))
     return out
